@@ -10,6 +10,7 @@ from .pyexpr import TranslateError, fail, find_class, load_module, strip_docstri
 
 # types: "Q" scalar, "N" index, "LQ" / "LN" arrays, tuples of types, ("list", t)
 CARRY = ("LN", "LN", "Q", "LQ")
+CARRY5 = ("LN", "LN", "Q", "LQ", "LN")
 SIGS = {
     "_get_value_next_state": (["N", "LQ"], "Q"),
     "_calculate_updated_state_action_value": (["N", "N", "LN", "Q", "LQ"], "Q"),
@@ -21,7 +22,11 @@ SIGS = {
     "_extract_policy_idx_scan_state_batches": ([CARRY, ("list", "LN")], ("list", "LN")),
     "_get_span": (["LQ", "LQ"], "Q"),
     "_get_max_diff": (["LQ", "LQ"], "Q"),
+    # PolicyIteration (policy evaluation sweep): carry = (actions, random_events, gamma, values, policy)
+    "_calculate_policy_value_state_batch": ([CARRY5, "LN"], (CARRY5, "LQ")),
+    "_calculate_policy_values_scan_state_batches": ([CARRY5, ("list", "LN")], ("list", "LQ")),
 }
+CLASS_OF = {"_calculate_policy_value_state_batch": "pi", "_calculate_policy_values_scan_state_batches": "pi"}
 PRIMS = {
     "transition": (["N", "N", "N"], ("N", "Q")),
     "random_event_probability": (["N", "N", "N"], "Q"),
@@ -91,9 +96,11 @@ class Fn:
         if isinstance(e, ast.Subscript) and isinstance(e.value, ast.Name):
             a, ta = self.expr(e.value)
             i, ti = self.expr(e.slice)
-            if ta != "LQ" or ti != "N":
-                fail(e, "only <value array>[<index>] is accepted")
-            return f"qnth {a} ({i})", "Q"
+            if (ta, ti) == ("LQ", "N"):
+                return f"qnth {a} ({i})", "Q"
+            if (ta, ti) == ("LN", "LN"):
+                return f"map (fun i0 => nth i0 {a} 0%nat) ({i})", "LN"     # gather: array[index array]
+            fail(e, "only <value array>[<index>] and <index array>[<index array>] are accepted")
         if isinstance(e, ast.BinOp) and isinstance(e.op, (ast.Add, ast.Sub, ast.Mult)):
             l, tl = self.expr(e.left)
             r, tr = self.expr(e.right)
@@ -132,28 +139,35 @@ class Fn:
                 fail(e, f"jnp.{f.attr} is not accepted")
             # jax.vmap(F, in_axes=(...))(args)
             if isinstance(f, ast.Call) and ast.unparse(f.func) == "jax.vmap":
-                if len(f.args) != 1 or len(f.keywords) != 1 or f.keywords[0].arg != "in_axes" or not isinstance(f.keywords[0].value, ast.Tuple):
-                    fail(f, "vmap must be jax.vmap(F, in_axes=(...))")
-                axes = [ast.literal_eval(x) for x in f.keywords[0].value.elts]
+                if len(f.args) != 1:
+                    fail(f, "vmap must be jax.vmap(F[, in_axes=(...)])")
                 head, pt, rt = self.callee(f.args[0])
+                if not f.keywords:
+                    axes = [0] * len(pt)                       # jax's default: every argument mapped along axis 0
+                elif len(f.keywords) == 1 and f.keywords[0].arg == "in_axes" and isinstance(f.keywords[0].value, ast.Tuple):
+                    axes = [ast.literal_eval(x) for x in f.keywords[0].value.elts]
+                else:
+                    fail(f, "vmap must be jax.vmap(F[, in_axes=(...)])")
                 if len(axes) != len(pt) or len(e.args) != len(pt) or e.keywords:
                     fail(e, "vmap arity differs from the callee's")
-                if sorted(a for a in axes if a is not None) != [0]:
-                    fail(e, "exactly one mapped axis (0) is accepted")
-                k = axes.index(0)
-                parts, mapped = [], None
+                ks = [j for j, a in enumerate(axes) if a is not None]
+                if any(axes[j] != 0 for j in ks) or len(ks) not in (1, 2):
+                    fail(e, "one or two arguments mapped along axis 0 are accepted")
+                parts, mapped = [], []
                 for j, a in enumerate(e.args):
                     txt, ty = self.expr(a)
-                    if j == k:
+                    if j in ks:
                         if elem(ty) != pt[j]:
                             fail(a, f"mapped argument {j} has type {ty}, callee expects elements of {pt[j]}")
-                        mapped = txt
-                        parts.append("v0")
+                        parts.append(f"v{len(mapped)}")
+                        mapped.append(txt)
                     else:
                         if ty != pt[j]:
                             fail(a, f"argument {j} has type {ty}, callee expects {pt[j]}")
                         parts.append(f"({txt})")
-                return f"map (fun v0 => {head} {' '.join(parts)}) ({mapped})", arr(rt)
+                if len(mapped) == 1:
+                    return f"map (fun v0 => {head} {' '.join(parts)}) ({mapped[0]})", arr(rt)
+                return f"map2 (fun v0 v1 => {head} {' '.join(parts)}) ({mapped[0]}) ({mapped[1]})", arr(rt)
             # jax.lax.scan(self._f, carry, xs)
             if ast.unparse(f) == "jax.lax.scan" and len(e.args) == 3 and not e.keywords:
                 head, pt, rt = self.callee(e.args[0])
@@ -239,15 +253,23 @@ Section Gen.
 
 
 def translate(repo):
-    path = f"{repo}/src/mdpax/solvers/value_iteration.py"
-    tree, _ = load_module(path)
-    cls = find_class(tree, "ValueIteration")
-    fns = {n.name: n for n in cls.body if isinstance(n, ast.FunctionDef)}
+    srcs = {"vi": ("solvers/value_iteration.py", "ValueIteration"), "pi": ("solvers/policy_iteration.py", "PolicyIteration")}
+    fns = {}
+    for key, (fname, cname) in srcs.items():
+        tree, _ = load_module(f"{repo}/src/mdpax/{fname}")
+        cls = find_class(tree, cname)
+        fns[key] = {n.name: n for n in cls.body if isinstance(n, ast.FunctionDef)}
+    # PolicyIteration must not override the kernels it inherits (the generated PI sweep calls the ValueIteration ones)
+    for name in ORDER:
+        if CLASS_OF.get(name, "vi") == "vi" and name in fns["pi"]:
+            raise TranslateError(f"PolicyIteration overrides {name}")
     out, spans = [HEADER], []
     for name in ORDER:
-        if name not in fns:
-            raise TranslateError(f"{name} not found in ValueIteration")
-        out.append(Fn(fns[name], name).translate())
-        spans.append({"method": f"{name} (solvers/value_iteration.py:{fns[name].lineno}-{fns[name].end_lineno})"})
+        key = CLASS_OF.get(name, "vi")
+        if name not in fns[key]:
+            raise TranslateError(f"{name} not found in {srcs[key][1]}")
+        node = fns[key][name]
+        out.append(Fn(node, name).translate())
+        spans.append({"method": f"{name} ({srcs[key][0]}:{node.lineno}-{node.end_lineno})"})
     out.append("End Gen.")
     return "\n".join(out) + "\n", {"spans": spans}
